@@ -511,7 +511,9 @@ def helpers_for(name, main):
     raise KeyError(name)
 
 
-CONTEXTS = ["top", "then", "else", "for", "if-flag", "for-n", "while"]
+CONTEXTS = ["top", "then", "else", "for", "if-flag", "for-n", "while",
+            # nesting depth 2 (seeded C02e: a domain used only at depth >= 2 was not imported by the outer scopes)
+            "for>then", "then>for", "then>then", "for>for"]
 CHAINS = [None, ("u+1", lambda u: ["bin", "+", u, L(1)]), ("Abs(u)", lambda u: ["call", "Abs", [u], []]),
           ("u*alpha", lambda u: ["bin", "*", u, A("alpha")]), ("Identity(u)", lambda u: ["call", "Identity", [u], []]),
           ("u==u", lambda u: ["bin", "==", u, u])]
@@ -579,6 +581,14 @@ def op_build(spec):
         body = pro + fb + [["assign", "j", ["bin", "*", V("k"), L(0)]], ["assign", "c", ["bin", "<", V("j"), V("k")]],
                            ["while", "c", core + [["assign", "j", ["bin", "+", V("j"), L(1)]],
                                                   ["assign", "c", ["bin", "<", V("j"), V("k")]]], None]]
+    elif ctx == "for>then":
+        body = pro + fb + [["for", "i", V("k"), [["if", V("b"), core, fb]], None]]
+    elif ctx == "then>for":
+        body = pro + [["if", V("b"), fb + [["for", "i", V("k"), core, None]], fb]]
+    elif ctx == "then>then":
+        body = pro + [["if", V("b"), [["if", ["bin", ">", V("k"), L(1)], core, fb]], fb]]
+    elif ctx == "for>for":
+        body = pro + fb + [["for", "i", V("k"), [["for", "j", L(2), core, None]], None]]
     else:
         raise AssertionError(ctx)
     ret = [V(t) for t in targets]
